@@ -8,7 +8,8 @@
 //
 // Conventions
 //
-//   - Key material: the trusted dealer of drive/keys (stream vh.NewRng(Seed, Prop, "deal", 0))
+//   - Key material: drive/keys.Material — the trusted dealer (stream vh.NewRng(Seed, Prop, "deal", 0))
+//     or, with cfg.KeySource = "gennaro", the real Gennaro DKG among all holders —
 //     for cfg.Policy over cfg.Curve ("k256" | "p256"); the hash is cfg.Hash ("sha256" | "sha3-256"
 //     | "sha512").  Every holder gets a shard; the parties of cfg.Quorum sign.
 //   - Every party of the quorum has its own recording drive.Tape over
@@ -47,10 +48,14 @@ import (
 	"github.com/bronlabs/bron-crypto/pkg/hashing"
 	rsess "github.com/bronlabs/bron-crypto/pkg/mpc/session"
 	"github.com/bronlabs/bron-crypto/pkg/mpc/sharing"
+	"github.com/bronlabs/bron-crypto/pkg/mpc/sharing/accessstructures/unanimity"
+	"github.com/bronlabs/bron-crypto/pkg/mpc/sharing/scheme/kw"
+	"github.com/bronlabs/bron-crypto/pkg/mpc/sharing/vss/feldman"
 	rdkls "github.com/bronlabs/bron-crypto/pkg/mpc/signatures/ecdsa/dkls23"
 	"github.com/bronlabs/bron-crypto/pkg/mpc/signatures/ecdsa/dkls23/keygen"
 	"github.com/bronlabs/bron-crypto/pkg/mpc/signatures/ecdsa/dkls23/signing_bbot"
 	"github.com/bronlabs/bron-crypto/pkg/mpc/signatures/ecdsa/dkls23/signing_softspoken"
+	"github.com/bronlabs/bron-crypto/pkg/mpc/zero/przs"
 	"github.com/bronlabs/bron-crypto/pkg/signatures/ecdsa"
 
 	"verif/harness/internal/drive"
@@ -89,13 +94,18 @@ type Result struct {
 	Digest   []byte       // hash of the message under cfg.Hash
 	M        *big.Int     // DigestToScalar(digest) as the library computes it
 	Partials map[sharing.ID]*Partial
-	Sig      *Sig   // Aggregate on ascending order (nil if it failed)
-	Sig2     *Sig   // Aggregate on descending order
-	LibOK    string // library verifier (ecdsa.NewVerifier(suite)) on Sig for (message, pk): "ok" | "reject" | "panic" | "-"
-	LibStrict string // the same verifier with ecdsa.VerifyNonMalleably
-	SetupErr string // non-empty if key material / contexts could not be made
-	BaseMul  func(k *big.Int) []byte // compressed k·G on cfg.Curve (the implementation's curve)
-	BaseXY   func(k *big.Int) (x, y *big.Int) // affine coordinates of k·G (nil, nil for the identity)
+	// what the theorem's key-share hypotheses speak about, computed with the library on the same
+	// shares / on clones of the same contexts: ConvertShareToAdditive(share_i, quorum) and the PRZS
+	// zero share zeta_i (the cosigner's c.state.sk is Additive[i] + Zeta[i])
+	Additive  map[sharing.ID]*big.Int
+	Zeta      map[sharing.ID]*big.Int
+	Sig       *Sig                             // Aggregate on ascending order (nil if it failed)
+	Sig2      *Sig                             // Aggregate on descending order
+	LibOK     string                           // library verifier (ecdsa.NewVerifier(suite)) on Sig for (message, pk): "ok" | "reject" | "panic" | "-"
+	LibStrict string                           // the same verifier with ecdsa.VerifyNonMalleably
+	SetupErr  string                           // non-empty if key material / contexts could not be made
+	BaseMul   func(k *big.Int) []byte          // compressed k·G on cfg.Curve (the implementation's curve)
+	BaseXY    func(k *big.Int) (x, y *big.Int) // affine coordinates of k·G (nil, nil for the identity)
 }
 
 var (
@@ -244,6 +254,29 @@ func run[P curves.Point[P, B, S], B algebra.PrimeFieldElement[B], S algebra.Prim
 		return fail("session contexts: %v", err)
 	}
 
+	res.Additive, res.Zeta = map[sharing.ID]*big.Int{}, map[sharing.ID]*big.Int{}
+	vh.Safely(func() {
+		quorum, err := unanimity.NewUnanimityAccessStructure(keys.IDSet(e.IDs))
+		if err != nil {
+			return
+		}
+		for _, id := range e.IDs {
+			kws, err := kw.NewInducedScheme(shards[id].MSP())
+			if err != nil {
+				return
+			}
+			fs, err := feldman.NewSchemeFromKW(curve, kws)
+			if err != nil {
+				return
+			}
+			if a, err := fs.ConvertShareToAdditive(shards[id].Share(), quorum); err == nil {
+				res.Additive[id] = big_(a.Value())
+			}
+			if z, err := przs.SampleZeroShare(ctxs[id].Clone(), suite.ScalarField()); err == nil {
+				res.Zeta[id] = big_(z.Value())
+			}
+		}
+	})
 	partials := map[sharing.ID]*rdkls.PartialSignature[P, B, S]{}
 	switch mult {
 	case "bbot":
